@@ -602,6 +602,9 @@ func genCase(r *Rng) Input {
 				amt = fmt.Sprint(r.Range(1, 2000000))
 			}
 			in.Ops = append(in.Ops, Op{K: "undel", V: r.Intn(nvals), Amt: amt})
+			if amt == "all" && r.Chance(2, 3) { // let the validator unbond and be removed
+				in.Ops = append(in.Ops, Op{K: "send"}, Op{K: "send"})
+			}
 		case 5:
 			in.Ops = append(in.Ops, Op{K: "jail", V: r.Intn(nvals)})
 		case 6:
@@ -630,8 +633,10 @@ func openers() []Input {
 	good := func(v int) Vote { return Vote{v, []Tuple{{0, rate(100)}}} }
 	bad := func(v int) Vote { return Vote{v, []Tuple{{0, rate(150)}}} }
 	p9 := base
-	p9.Win = 4
+	p9.Win = 10
 	out = append(out, Input{Params: p9, WL: []int{0}, Vals: []string{ten, ten, ten}, Ops: []Op{
+		{K: "end", Jump: "period", Votes: []Vote{good(0), good(1), bad(2)}},
+		{K: "end", Jump: "period", Votes: []Vote{good(0), good(1), bad(2)}},
 		{K: "end", Jump: "period", Votes: []Vote{good(0), good(1), bad(2)}},
 		{K: "end", Jump: "period", Votes: []Vote{good(0), good(1), bad(2)}},
 		{K: "undel", V: 2, Amt: "all"}, {K: "send"}, {K: "send"},
@@ -656,7 +661,7 @@ func openers() []Input {
 }
 
 func TestC12(t *testing.T) {
-	cfg := LoadCfg(t, 110, 2500)
+	cfg := LoadCfg(t, 90, 2500)
 	em := NewEmitter(t, cfg.Out)
 	defer em.Close()
 	emit := func(in Input) {
